@@ -89,6 +89,18 @@ CHECKS = {
             "Trusted: Python's inspect.signature binding on the reference function and int() as the ideal conversion. Calls "
             "Python does not bind, and calls naming one parameter through two spellings, are executed but not judged.",
             "DESIGN.md §3 C08"),
+    "C09": ("bounded-exhaustive exploration of combinator trees x inputs x conversion flags against the statement's model with "
+            "the arguments as black boxes, plus exhaustive construction-algebra checks",
+            "Every |, ^, & of 2 arguments (all ordered pairs of 16 leaves) and 3 arguments (all ordered triples of 6 / 9 "
+            "leaves), every ~, and depth-2 trees with an inner combinator, applied to every address-independent atom and "
+            "directed input under the 4 no_explicit_cast/no_data_loss combinations: union verdict/result/exact-type "
+            "pass-through, exclusive-or verdict (exactly one argument accepts the given input; all orders are enumerated), "
+            "negation verdict/identity, conjunction = left fold. Algebra: double negation, duplicates, Any absorption, "
+            "operator form == function form, flattening of nested combinators, plain-class / typing.Union / data-class "
+            "operands, each checked on structure and on behaviour over all atoms.",
+            "Trusted: accepts(argument, x) measured on the real code (compositional for nested trees); a union is allowed to "
+            "reach an argument through its documented stricter stages.",
+            "DESIGN.md §3 C09"),
     "C16": ("explicit-state exploration (DFS with state dedup) of register/resolve histories on the real "
             "TypeRegistry against a cache-free reference model",
             "All histories of register/resolve operations up to depth 4 (quick) / 5 (thorough) over a menu of "
